@@ -263,9 +263,12 @@ package goose
 //@ func (Ctx).selectorMethod (ctx, f, call)
 //@   may_reject
 //@   ensures [a term is returned] result != nil
+//@ ghost func isstringtype(t types.Type) bool = typeis(t, *types.Basic) && basicname(t) == "string"
+//@ ghost func isbyteslice(t types.Type) bool = typeis(t, *types.Slice) && typeis(pure(types.Type, "(*go/types.Slice).Elem", t.(*types.Slice)), *types.Basic) && basicname(pure(types.Type, "(*go/types.Slice).Elem", t.(*types.Slice))) == "byte"
 //@ ghost func calledfun(call *ast.CallExpr) ast.Expr = typeis(call.Fun, *ast.IndexExpr) ? call.Fun.(*ast.IndexExpr).X : (typeis(call.Fun, *ast.IndexListExpr) ? call.Fun.(*ast.IndexListExpr).X : call.Fun)
 //@ func (Ctx).methodExpr (ctx, call)
 //@   may_reject
+//@   ensures [conversion to string only from strings and byte slices] old(pure(bool, "(go/types.TypeAndValue).IsType", ctx.info.Types[call.Fun])) && identnamed(call.Fun, "string") ==> isstringtype(utype(tyof(ctx, call.Args[0]))) || isbyteslice(tyof(ctx, call.Args[0]))
 //@   ensures [only conversions and calls of named functions or methods] old(pure(bool, "(go/types.TypeAndValue).IsType", ctx.info.Types[call.Fun])) || typeis(calledfun(call), *ast.Ident) || typeis(calledfun(call), *ast.SelectorExpr)
 //@ func (Ctx).makeSliceExpr (ctx, elt, args)
 //@   may_reject
@@ -338,6 +341,7 @@ package goose
 //@   noframe
 //@   use ast
 //@   ensures [append takes a slice and one more argument] old(builtincall(ctx, s, "append")) ==> len(s.Args) == 2
+//@   ensures [a panic message contains no double quote] old(builtincall(ctx, s, "panic")) && typeis(s.Args[0], *ast.BasicLit) && s.Args[0].(*ast.BasicLit).Kind == token.STRING ==> !contains(old(pure(string, "go/constant.StringVal", ctx.info.Types[s.Args[0]].Value)), "\"")
 //@   ensures [delete only on maps] old(builtincall(ctx, s, "delete")) ==> typeis(tyof(ctx, s.Args[0]), *types.Map)
 //@ func (Ctx).isBuiltin (ctx, e, name)
 //@   ensures [true exactly for the identifier `name` denoting the predeclared object] result <==> (typeis(e, *ast.Ident) && e.(*ast.Ident).Name == name && univ(ctx.info, e))
